@@ -134,6 +134,9 @@ def object_ops(world, s):
     ops.append(('abort', s, 2, 1))         # the user function raises at its 2nd / 4th evaluation: the call is
     ops.append(('abort', s, 2, 3))         # abandoned half-way, the exception propagates to the caller
     if not multi:
+        # the documented zero-order request (n = 0: the extrapolated function value) made on this object in between:
+        # n is set to 0, the object is called, n is put back -- afterwards the object is configured as before
+        ops.append(('zeroth', s, 2))
         for n in N_ALT:
             if n != obj.n:
                 ops.append(('set', s, 'n', n))
@@ -235,6 +238,17 @@ def apply_op(world, op, ms):
                 obj.n = cfg[2]
             if cls_of(cfg) != 'Hessian':
                 obj.order = cfg[3]
+        elif kind == 'zeroth':
+            _, s, xi = op
+            obj = world.slots[s]
+            n_before = obj.n
+            obj.n = 0
+            try:
+                obj(np.asarray(XS[xi]))
+            except Exception:
+                pass
+            finally:
+                obj.n = n_before
         elif kind == 'abort':
             _, s, xi, k = op
             obj = world.slots[s]
